@@ -387,6 +387,10 @@ var c09JsSpaceKw = map[string]bool{"typeof": true, "void": true, "delete": true,
 	"function": true, "class": true, "extends": true, "static": true, "get": true, "set": true, "async": true, "default": true, "import": true,
 	"export": true, "as": true, "from": true, "break": true, "continue": true}
 
+// keywords after which an operand (not a template tag's template) follows
+var c09JsOperandKw = map[string]bool{"typeof": true, "void": true, "delete": true, "in": true, "instanceof": true,
+	"return": true, "throw": true, "else": true, "do": true, "case": true, "new": true, "default": true, "extends": true}
+
 // c09JsClassifyGap names the hazard class that explains a single space between tokens a and b ("" = unexplained).
 func c09JsClassifyGap(a, b c09JsTok, prevLt bool) string {
 	la, fb := a.Text[len(a.Text)-1], b.Text[0]
@@ -403,7 +407,7 @@ func c09JsClassifyGap(a, b c09JsTok, prevLt bool) string {
 		return "lt-not-decr"
 	case la == '-' && b.K == 'p' && b.Text == ">":
 		return "decr-gt"
-	case la == '<' && b.K == 'r' && strings.HasPrefix(b.Text, "/script>"):
+	case la == '<' && b.K == 'r' && len(b.Text) >= 7 && strings.EqualFold(b.Text[1:7], "script"):
 		return "lt-regex-script"
 	case a.K == 'n' && a.Text == "as" && b.K == 's', a.K == 's' && b.K == 'n' && b.Text == "as":
 		return "as-string"
@@ -1130,6 +1134,16 @@ var c09JsSeeds = []string{
 	"throw /re/; ", "throw a", "x = a ? /re/ : /re2/g; y = [/re/, /re/]; z = {a: /re/}; w = (/re/); v = !/re/; u = a || /re/; t = a, /re/",
 	"x = a.b /c/g; y = a[0] /c/g; z = a() /c/g; w = a`b` /c/g; v = \"s\" /c/g; u = 1 /c/g; t = this /c/g; s = a++ /c/g",
 	"x = a ? b : c; y = a ?. b; z = a ?.5 : c; w = a ?.[5]; v = a?.b?.c?.(d)?.[e]",
+	// fixed findings K-C09-JS-1 (86dcc30), -2 (6f68ab7), -5/-6/-7 (a80add2): every variant must pass every oracle
+	"if(a){/*! c */}else b", "if(a){/*! c */}", "if(a)b;else{/*! c */}", "L:{/*! c */}", "while(a){/*! c */}", "for(;;){/*! c */}",
+	"for(x in y){//! c\n}", "do{/*! c */}while(a)", "with(a){/*! c */}", "function f(){if(a){/*! c */}}", "if(a){/*! c */}b();c()",
+	"if(a){/*! c */}function f(){}", "if(y){//! bang\n}function f1(p){p}", "L1:{/*!\n*/}let z", "for(k in o){//! bang\n}function*f3(){}",
+	"if(a)b;else{/*! bang */}async function f5(){}", "if(a){/*! bang */}class C1{}",
+	"(class{}).p=1", "(class{})**x", "(class{})[a]=1", "(class{}).p++", "(class{}),b", "(class A{}).p()",
+	"x='<\\x2fscript>';y='<\\57script>';z='<\\u{2f}script>';w='</\\x73cript>';v='</scrip\\x74>';u=`</scrip\\x74>`;t='<\\/\\script>';p='\\</script>';n='</SCRIPT';m=`a${b}</scr\\ipt`",
+	"s='<\\!--';r='<'+'!--';o='<!\\x2d-';l=`<\\!--${b}<!-\\-`;x='<'+'!--<script>';q='<'+'/script>'",
+	"x=a< /script/.test(y);y=a< /SCRIPT>/;z=a<< /ScRiPt/;w=a< /scriptx/;v=a< /scrip/",
+	"'</script>';x={'</script>':1,'<!--':2};class A{'</script>'(){} static '<!--'=1};y=a['</script>']",
 	"try{}catch{a}/re/.test(b); try{}catch(e){}/re/.test(b); import.meta in x; function f(){new.target instanceof f}",
 	"//! bang\n/re/.test(a); /*! b *//=/.test(a)",
 	"x = new (a?.b)[c](); y = new ((a?.b)).c; z = (a?.b)[c]; w = (a?.b)(); v = (a?.b)`t`; (a?.b).c = 1; (a?.b.c).d++; ++(a?.b)[c]",
@@ -1374,6 +1388,44 @@ func c09JsStages(c *Ctx) error {
 			fail(cs, "diff", "cannot locate the tokens in the output", "", "")
 			continue
 		}
+		// string literals and untagged templates never contain `</script` (any case) or `<!--` (since /repo a80add2)
+		{
+			var tagStack []bool
+			for j, t := range lean {
+				check := false
+				switch {
+				case t.K == 's':
+					check = true
+				case t.K == 't':
+					tagged := false
+					if t.Text[0] == '`' {
+						if j > 0 {
+							pv := lean[j-1]
+							tagged = pv.K == 't' && strings.HasSuffix(pv.Text, "`") || pv.K == 's' || pv.K == 'h' || pv.K == 'd' || pv.K == 'r' || pv.K == 'n' && (!c09JsOperandKw[pv.Text] || j >= 2 && lean[j-2].K == 'p' && (lean[j-2].Text == "." || lean[j-2].Text == "?.")) ||
+								pv.K == 'p' && (pv.Text == ")" || pv.Text == "]" || pv.Text == "}" || pv.Text == "?.")
+						}
+						if strings.HasSuffix(t.Text, "${") {
+							tagStack = append(tagStack, tagged)
+						}
+					} else if len(tagStack) > 0 {
+						tagged = tagStack[len(tagStack)-1]
+						if strings.HasSuffix(t.Text, "`") {
+							tagStack = tagStack[:len(tagStack)-1]
+						}
+					}
+					check = !tagged
+					if tagged {
+						st.Tag("template=tagged")
+					}
+				}
+				if check {
+					st.Tag("literal=embed-checked")
+				}
+				if check && (c09JsContainsFold([]byte(t.Text), "</script") >= 0 || strings.Contains(t.Text, "<!--")) {
+					fail(cs, "fail", "a string literal or untagged template of the output contains `</script` or `<!--`", t.Text, "")
+				}
+			}
+		}
 		if sig := c09JsEmbedSignature(cs.src, cs.out, lean, starts); sig != "" {
 			fail(cs, "fail", "the output contains `</script` or `<!--` although the input does not (it would end or hide the end of an HTML script element)", sig, sig)
 		} else if cs.known != "" {
@@ -1541,10 +1593,18 @@ func c09JsStringStage(c *Ctx, node *c09JsNode, openSig map[string]string) error 
 	}
 	var cases []sc
 	n := c.N(4000, 200000)
-	for k := 0; k < n; k++ {
+	fixedLits := []string{`'<\x2fscript>'`, `'<\57script>'`, `'<\u{2f}script>'`, `'<\u002fscript>'`, `'</\x73cript>'`, `'</scrip\x74>'`, "`</scrip\\x74>`", `'<\/\script>'`,
+		`'</\script>'`, `'<\/scr\ipt>'`, `'\</script>'`, `'</SCRIPT'`, `"</script>"`, "`</script>`", `'<\!--'`, `'<!\x2d-'`, `'<\x21--'`, "`<!\\x2d-`", `"<!--"`, "`<!--`", `'<!--<script>'`}
+	for k := 0; k < n+len(fixedLits)*2; k++ {
 		r := c.Rng.Fork()
 		lit := c09JsGenLiteral(r)
+		if k >= n {
+			lit = fixedLits[(k-n)/2]
+		}
 		o := &minjs.Minifier{Version: []int{0, 5, 2015, 2022}[r.Intn(4)]}
+		if k >= n {
+			o = &minjs.Minifier{Version: []int{0, 2015}[(k-n)%2]}
+		}
 		out, err, crash := c09JsMinify(o, []byte("x="+lit))
 		if crash != "" {
 			c.R.Add(h.Finding{Stage: st.Name, Kind: "crash", What: crash, Input: h.Q([]byte(lit))})
@@ -1631,8 +1691,8 @@ func c09JsStringStage(c *Ctx, node *c09JsNode, openSig map[string]string) error 
 			report("fail", "the printed literal contains `</script`", "", "embed-script-string")
 			continue
 		}
-		if strings.Contains(p.tok, "<!--") && !strings.Contains(cs.lit, "<!--") {
-			report("fail", "the printed literal contains `<!--` although the input literal does not", "", "embed-comment-open")
+		if strings.Contains(p.tok, "<!--") {
+			report("fail", "the printed literal contains `<!--`", "", "embed-comment-open")
 			continue
 		}
 		if strings.ContainsAny(cs.lit, "\\") {
